@@ -173,6 +173,10 @@ func (thisListener *GruleV3ParserListener) ExitRuleEntry(ctx *grulev3.RuleEntryC
 	if ctx.RuleDescription() != nil {
 		txt := ctx.RuleDescription().GetText()
 		entry.RuleDescription = txt[1 : len(txt)-1]
+		// the description is a string literal: resolve its escape sequences (\" etc.) when they are well formed
+		if dec, err := unquoteString(txt); err == nil {
+			entry.RuleDescription = dec
+		}
 	}
 
 	entryReceiver, popOk := thisListener.Stack.Peek().(ast.RuleEntryReceiver)
